@@ -1,6 +1,7 @@
 package props
 
 import (
+	"fmt"
 	"math"
 	"math/big"
 	"sort"
@@ -14,30 +15,90 @@ import (
 // chunks, using 1-channel buffers, and hands back the raw results.
 type scanner struct {
 	cv       *dyn.ConvOp
+	ch       int
 	src, dst dyn.Buf
 	out      []uint64
+	rev, tmp []uint64
 }
 
 const chunkN = 1 << 14
 
-func newScanner(cv *dyn.ConvOp) *scanner {
-	return &scanner{cv: cv,
-		src: cv.S.Alloc(signal.Allocator{Channels: 1, Length: chunkN, Capacity: chunkN}),
-		dst: cv.D.Alloc(signal.Allocator{Channels: 1, Length: chunkN, Capacity: chunkN}),
-		out: make([]uint64, chunkN)}
+func newScanner(cv *dyn.ConvOp) *scanner { return newScannerCh(cv, 1) }
+
+// newScannerCh uses buffers with ch channels (the interleaved positions are
+// filled in order, so the channel count must not matter to the results).
+func newScannerCh(cv *dyn.ConvOp, ch int) *scanner {
+	frames := (chunkN + ch - 1) / ch
+	return &scanner{cv: cv, ch: ch,
+		src: cv.S.Alloc(signal.Allocator{Channels: ch, Length: frames, Capacity: frames}),
+		dst: cv.D.Alloc(signal.Allocator{Channels: ch, Length: frames, Capacity: frames}),
+		out: make([]uint64, chunkN), rev: make([]uint64, chunkN), tmp: make([]uint64, chunkN)}
 }
 
 // conv converts len(in) <= chunkN samples; the result slice is reused.
 func (s *scanner) conv(in []uint64) []uint64 {
 	n := len(in)
 	src, dst := s.src, s.dst
-	if n < chunkN {
-		src, dst = s.src.Slice(0, n), s.dst.Slice(0, n)
+	if frames := (n + s.ch - 1) / s.ch; frames < s.src.Length() {
+		src, dst = s.src.Slice(0, frames), s.dst.Slice(0, frames)
 	}
 	s.cv.S.Fill(src, in)
 	s.cv.Call(src, dst)
 	s.cv.D.Drain(dst, s.out[:n])
 	return s.out[:n]
+}
+
+// orderCheck converts the same samples in reverse order and returns the index
+// of the first sample whose result differs from `out` (-1: none): a
+// conversion must not depend on the samples before it in the buffer.
+func (s *scanner) orderCheck(in, out []uint64) (int, uint64) {
+	n := len(in)
+	keep := s.tmp[:n]
+	copy(keep, out)
+	r := s.rev[:n]
+	for i, v := range in {
+		r[n-1-i] = v
+	}
+	got := s.conv(r)
+	for i := 0; i < n; i++ {
+		if got[n-1-i] != keep[i] {
+			return i, got[n-1-i]
+		}
+	}
+	copy(out, keep) // s.out was overwritten by the reverse pass
+	return -1, 0
+}
+
+// prelude converts a short buffer that STARTS with the zero-amplitude sample
+// (and repeats it between extreme values) and returns the results, so that
+// state carried from sample to sample (a cache of the previous value, an
+// initial value of an accumulator) becomes visible.
+func (s *scanner) prelude(zero, lo, hi uint64) (in []uint64, out []uint64) {
+	in = []uint64{zero, zero, hi, zero, lo, zero, hi, hi, lo, lo, zero}
+	res := s.conv(in)
+	return in, append([]uint64(nil), res...)
+}
+
+// preludeCheck runs the prelude and reports inconsistent results: the same
+// sample must convert to the same result wherever it stands in the buffer,
+// and the zero-amplitude sample must give zeroOK.
+func preludeCheck(c *core.Ctx, sc *scanner, name, caseID string, zero, lo, hi uint64, zeroOK func(raw uint64) bool) {
+	in, out := sc.prelude(zero, lo, hi)
+	first := map[uint64]uint64{}
+	for i, v := range in {
+		if prev, ok := first[v]; ok && prev != out[i] {
+			c.Violate(name+"|position-dependence", caseID, fmt.Sprintf("prelude %v: the sample at position %d converted to %#x, the same sample earlier in the buffer to %#x", in, i, out[i], prev),
+				map[string]any{"fn": name, "input_carriers": in, "output_carriers": out})
+			return
+		} else if !ok {
+			first[v] = out[i]
+		}
+	}
+	if !zeroOK(out[0]) {
+		c.Violate(name+"|leading-zero", caseID, fmt.Sprintf("a buffer starting with the zero-amplitude sample: position 0 converted to carrier %#x", out[0]),
+			map[string]any{"fn": name, "input_carriers": in, "output_carriers": out})
+	}
+	c.Obs("preludes_starting_with_zero", 1)
 }
 
 // amp is the amplitude of a fixed-point code given as raw carrier.
